@@ -85,6 +85,16 @@ func (e *Exec) marshalAny(v Val) *Term {
 	if m, ok := iv.V.(*MapV); ok {
 		return e.marshalObject(m).S
 	}
+	if b, ok := iv.T.Underlying().(*types.Basic); ok && b.Kind() == types.String {
+		// a Go string inside a parsed document marshals to a JSON string literal
+		s := iv.V.(*Term)
+		q := e.injUF("jquote", SBlob, toBlob(s))
+		e.assume(jsonValid(q))
+		e.assume(tEq(jcanon(q), q))
+		e.assume(tNe(q, nullBlob))
+		e.assume(tNot(oisObj(q)))
+		return q
+	}
 	panic(pathEnd{kind: "unsupported", msg: "json.Marshal of " + iv.T.String() + " inside an object"})
 }
 
